@@ -1,6 +1,9 @@
 ----------------------------- MODULE LockRec12 -----------------------------
 (* C12: one record = one schedule replayed into the real lockers; every      *)
-(* recorded observation must satisfy Exclusion (LockObs.tla).                *)
+(* recorded observation must satisfy ExclusionWithinMargin (LockObs.tla):    *)
+(* Exclusion, except that a holder whose lock file was removed by a third    *)
+(* party (clock ahead by the documented margin) may coexist with a newcomer  *)
+(* for 1 min of protocol waits + the time it was stalled.                    *)
 EXTENDS LockObs
-RecOK(r) == \A k \in 1..Len(r.obs) : Exclusion(r.obs[k])
+RecOK(r) == \A k \in 1..Len(r.obs) : ExclusionWithinMargin(r.obs[k])
 =============================================================================
